@@ -58,7 +58,8 @@ _QUALS = 'FJA<7-IE!#'          # includes phred 0 ('!')
 def contig_names(k, rng):
     """Names whose lexicographic order differs from the header order."""
     pool = ['chr10', 'chr2', 'chrM', 'scaffold_9', 'chr1', 'KI27', 'chrX', 'alt_3', 'chr11', 'GL00', 'chrY', 'chr3', 'un_7', 'chr20',
-            'chr1_alt', '1']           # names that are prefixes / substrings of each other
+            'chr1_alt', '1',           # names that are prefixes / substrings of each other
+            'HLA-A*01:01:01:01', 'HLA-B*07:02', 'un|k=1', 'chr7:alt;2']   # legal SAM names with * : | = ; (hg38 HLA set ...)
     rng.shuffle(pool)
     return pool[:k]
 
